@@ -2,7 +2,8 @@
     Only property theorems live here: each is closed by [exact] of a lemma proved in Optics/SymplProofs.v
     (linear maps of Optics/Maps.v) or Bmadx/SymplX*.v (non-linear Bmad-X maps), followed by [Print Assumptions]. *)
 From Coq Require Import Reals.
-From Cheetah Require Import Base.Mat Optics.Maps Optics.Sympl Optics.SymplProofs.
+From Coquelicot Require Import Coquelicot.
+From Cheetah Require Import Base.Mat Optics.Maps Optics.Sympl Optics.SymplProofs Bmadx.SymplX.
 Open Scope R_scope.
 
 (** what "symplectic" means here: M^T S6 M = S6 on the 6x6 linear part, with
@@ -133,6 +134,52 @@ Proof. exact seventh_row_cavity_on. Qed.
 Theorem C03_seventh_row_identity_elements : affine identity_map.
 Proof. exact seventh_row_identity. Qed.
 
+(** non-linear Bmad-X maps (cheetah/utils/bmadx.py), in Bmad coordinates (x,px,y,py,z,pz) where all pairs are positive *)
+(* track_a_drift: on the whole paraxial region the code's displacement of (x,y,z) is the gradient form
+   L*px/D, L*py/D, L*(g(pz) + 1 - (1+pz)/D), D = sqrt((1+pz)^2 - px^2 - py^2) *)
+Theorem C03_driftx_is_gradient_form : forall L p0c mc2 px py pz, 0 < 1 + pz /\ dx_Pxy2 px py pz < 1 ->
+  driftx_dx L px py pz = L * px / DD px py pz /\
+  driftx_dy L px py pz = L * py / DD px py pz /\
+  driftx_dz L p0c mc2 px py pz = L * (driftx_g p0c mc2 pz + 1 - (1 + pz) / DD px py pz).
+Proof. exact (fun L p0c mc2 px py pz H => conj (driftx_dx_form L px py pz H) (conj (driftx_dy_form L px py pz H) (driftx_dz_form L p0c mc2 px py pz H))). Qed.
+(* the cross derivatives of the displacement w.r.t. the momenta agree pairwise (it is a gradient), at every point *)
+Theorem C03_driftx_cross_derivatives : forall L g px py pz, 0 < (1 + pz) * (1 + pz) + - (px * px) + - (py * py) ->
+  let D3 := (DD px py pz) ^ 3 in
+  is_derive (fun t => gx L px t pz) py (L * px * py / D3) /\ is_derive (fun t => gy L t py pz) px (L * px * py / D3) /\
+  is_derive (fun t => gx L px py t) pz (- L * px * (1 + pz) / D3) /\ is_derive (fun t => gz L g t py pz) px (- L * px * (1 + pz) / D3) /\
+  is_derive (fun t => gy L px py t) pz (- L * py * (1 + pz) / D3) /\ is_derive (fun t => gz L g px t pz) py (- L * py * (1 + pz) / D3).
+Proof. exact driftx_cross_derivatives. Qed.
+(* hence the Jacobian (momenta unchanged, positions sheared by that symmetric matrix; any diagonal entries) is symplectic *)
+Theorem C03_driftx_jacobian_symplectic : forall L px py pz fxx fyy fzz,
+  let D3 := (DD px py pz) ^ 3 in
+  symplectic_wrt S6plus (shear fxx (L * px * py / D3) (- L * px * (1 + pz) / D3) fyy (- L * py * (1 + pz) / D3) fzz).
+Proof. exact driftx_sympl. Qed.
+Theorem C03_shear_symplectic : forall a b c d e f, symplectic_wrt S6plus (shear a b c d e f).
+Proof. exact sympl_shear. Qed.
+Theorem C03_kick_symplectic : forall a b c d e f, symplectic_wrt S6plus (kick a b c d e f).
+Proof. exact sympl_kick. Qed.
+(* (tau,delta) -> (z,pz): any longitudinal block of determinant -1 turns the all-positive form into cheetah's S6;
+   the code's change has d z/d tau = -beta, d pz/d tau = 0, d pz/d delta = E/p = 1/beta *)
+Theorem C03_coords_flip : forall n11 n12 n21 n22, n11 * n22 - n12 * n21 = -1 ->
+  rmmul (transpose (lin6 (long_change n11 n12 n21 n22))) (rmmul S6plus (lin6 (long_change n11 n12 n21 n22))) = S6.
+Proof. exact coords_flip. Qed.
+Theorem C03_dpz_ddelta : forall E0 p0 m delta, 0 < p0 -> 0 < (E0 + delta * p0) * (E0 + delta * p0) - m * m ->
+  is_derive (fun d => (sqrt ((E0 + d * p0) * (E0 + d * p0) - m * m) - p0) / p0) delta
+            ((E0 + delta * p0) / sqrt ((E0 + delta * p0) * (E0 + delta * p0) - m * m)).
+Proof. exact dpz_ddelta. Qed.
+Theorem C03_change_coords : forall Jc Jb Nin Nout,
+  rmmul (lin6 Nout) (lin6 Jc) = rmmul (lin6 Jb) (lin6 Nin) ->
+  rmmul (transpose (lin6 Nin)) (rmmul S6plus (lin6 Nin)) = S6 ->
+  rmmul (transpose (lin6 Nout)) (rmmul S6plus (lin6 Nout)) = S6 ->
+  symplectic_wrt S6plus Jb -> symplectic Jc.
+Proof. exact sympl_change_coords. Qed.
+(* Bmad-X quadrupole step: the 2x2 block determinant is 1 -+ eps*sx^2 because of sqrt(|k1|+eps): symplectic up to eps only *)
+Theorem C03_quadx_block_det_partial : forall k1 L eps relp, 0 < eps -> relp <> 0 ->
+  det2 (qx_cx k1 L eps) (qx_sx k1 L eps / relp) (k1 * qx_sx k1 L eps * relp) (qx_cx k1 L eps)
+  = 1 + (if Rle_dec k1 0 then - eps else eps) * (qx_sx k1 L eps * qx_sx k1 L eps).
+Proof. exact quadx_block_det_partial. Qed.
+
+
 (* non-vacuity: the hypotheses of the dipole theorem are met by an ordinary bend, and by a zero-length one *)
 Example C03_nonvacuous_dipole : forall E,
   symplectic (dip_map 1 (1/2) 0 (1/10) (1/10) (1/5) (1/100) (1/2) (1/2) E) /\
@@ -181,3 +228,12 @@ Print Assumptions C03_seventh_row_cavity_off.
 Print Assumptions C03_seventh_row_cavity_on.
 Print Assumptions C03_seventh_row_identity_elements.
 Print Assumptions C03_nonvacuous_dipole.
+Print Assumptions C03_driftx_is_gradient_form.
+Print Assumptions C03_driftx_cross_derivatives.
+Print Assumptions C03_driftx_jacobian_symplectic.
+Print Assumptions C03_shear_symplectic.
+Print Assumptions C03_kick_symplectic.
+Print Assumptions C03_coords_flip.
+Print Assumptions C03_dpz_ddelta.
+Print Assumptions C03_change_coords.
+Print Assumptions C03_quadx_block_det_partial.
